@@ -178,3 +178,31 @@ func sanitize(s string) string {
 	}
 	return sb.String()
 }
+
+// ISub / IAdd build integer differences / sums with constant folding of small literals.
+func ISub(a, b T) T {
+	if b.S == "0" {
+		return a
+	}
+	x, okx := new(big.Int).SetString(a.S, 10)
+	y, oky := new(big.Int).SetString(b.S, 10)
+	if okx && oky {
+		return BigLit(new(big.Int).Sub(x, y))
+	}
+	return App(SInt, "-", a, b)
+}
+
+func IAdd(a, b T) T {
+	if b.S == "0" {
+		return a
+	}
+	if a.S == "0" {
+		return b
+	}
+	x, okx := new(big.Int).SetString(a.S, 10)
+	y, oky := new(big.Int).SetString(b.S, 10)
+	if okx && oky {
+		return BigLit(new(big.Int).Add(x, y))
+	}
+	return App(SInt, "+", a, b)
+}
